@@ -287,6 +287,9 @@ fn judge(sc: &Scenario, obs: &Obs, res: &tiny_http::verif_rt::core::RunResult) -
                     }
                 }
             }
+            if obs.server_handles_end > 8 {
+                f.push(Failure { clause: "sockets-not-released", desc: format!("{} server-side socket handles are still alive 6 s after {} clients vanished and the server was dropped", obs.server_handles_end, sc.conns.len()) });
+            }
             if obs.live_threads_end > 8 {
                 f.push(Failure { clause: "workers-stuck", desc: format!("{} threads are still alive 6 s after {} clients vanished and the server was dropped", obs.live_threads_end, sc.conns.len()) });
             }
@@ -392,7 +395,7 @@ impl Check for C15 {
     }
     fn rule(&self, tier: Tier) -> String {
         format!(
-            "300 (thorough also 1100) clients one after the other, each sending a different prefix of a request (inside the head, inside a 1500-byte body, complete + pipelined GET) and then closing / resetting / half-closing, every fifth client an ordinary one whose GET must be delivered once and answered 200: no panic, a fresh connection is served afterwards, at most the minimum workers remain 6 s after the server is dropped; (a) for each of the {} corpus conversations (and a respond-without-reading variant): {} prefix length k x {{half-close, close, reset}} x {{server quiescent before the client ends, client ends at once}}; (b) for each response kind {:?}: client gone after exactly j response bytes, j = {}, by close and by reset; client not reading (1 KiB window) then closing/resetting; client gone before the application answers; {} fault scenarios, each followed by a fresh connection that must be served; oracle: nothing incomplete is delivered, after an orderly close everything complete is delivered and answered (reference model), respond() returns Ok, body reads end (no hang), no panic",
+            "300 (thorough also 1100) clients one after the other, each sending a different prefix of a request (inside the head, inside a 1500-byte body, complete + pipelined GET) and then closing / resetting / half-closing, every fifth client an ordinary one whose GET must be delivered once and answered 200: no panic, a fresh connection is served afterwards, at most the minimum workers and no socket handles remain 6 s after the server is dropped; (a) for each of the {} corpus conversations (and a respond-without-reading variant): {} prefix length k x {{half-close, close, reset}} x {{server quiescent before the client ends, client ends at once}}; (b) for each response kind {:?}: client gone after exactly j response bytes, j = {}, by close and by reset; client not reading (1 KiB window) then closing/resetting; client gone before the application answers; {} fault scenarios, each followed by a fresh connection that must be served; oracle: nothing incomplete is delivered, after an orderly close everything complete is delivered and answered (reference model), respond() returns Ok, body reads end (no hang), no panic",
             the_corpus().len(), if full(tier) { "every" } else { "every syntactic-boundary (+-2) " },
             response_kinds().iter().map(|k| k.0).collect::<Vec<_>>(),
             if full(tier) { "0..2048, 4096, 5200 (70000-byte bodies: 9 offsets up to 70100)" } else { "0..2048 step 7, 1023..1025, 4096, 5200" },
